@@ -75,6 +75,27 @@ NOTES = {
  "C17-J": "C18 missed it (C17 caught it once the proxy pass existed); C17 gained the proxy pass over log-list update sequences",
  "C18-J": "missed at first; C18 writes log-list interval bounds with zone offsets at year boundaries",
  "C20-I": "C20's answers gained a server-side Canceled (from the seeder's description, before the first verification run)",
+ "C01-K": "missed at first (C14 caught it); C01 and C07 gained a trusted root submitted on its own",
+ "C01-L": "missed at first; C01 (and C12) gained precert signing certificates with several EKUs",
+ "C02-K": "missed at first; C02 gained leaves carrying the public key that CheckSignatureFrom exempts from the CA test",
+ "C03-L": "missed at first; C03's embedded lists gained repeated SCTs",
+ "C05-L": "missed at first; C05 gained tree heads at field boundaries (empty tree with an arbitrary root hash)",
+ "C06-K": "C06 itself cannot show it (it needs a lagging backend replica); caught by C08's tree-smaller-than-needed faults and by C14",
+ "C06-L": "C06 itself runs the default chain storage; caught by C14 (external storage, both read routes) and C08",
+ "C07-K": "C07 itself runs the default chain storage; caught by C14 (get-entry-and-proof of a one-leaf tree)",
+ "C07-L": "C07 itself missed it at first (C14 caught it); C07's histories gained roots submitted on their own",
+ "C08-K": "missed at first; C08 gained replies with several proofs, one of them ill-formed",
+ "C09-K": "missed at first; C09 gained selectors of every width with arm values up to 2^64-1",
+ "C10-L": "missed at first; C10 gained parameter strings with their parts in another order",
+ "C11-K": "missed at first; C11 gained critical name constraints over all pairings of permitted / excluded lists",
+ "C12-K": "missed at first; C12 gained get-entries batches of every length around likely thresholds",
+ "C12-L": "missed at first; C12 gained a precert signing certificate with several EKUs",
+ "C13-K": "missed at first; C13 gained the client-wide Retry-After lower bound",
+ "C13-L": "missed at first; C13's menu gained ~100 kB bodies",
+ "C16-L": "missed at first; C16 gained leaf-level matchers over entries whose certificate bytes do not parse",
+ "C17-L": "missed at first; C17's proxy pass gained content-changing list editions with unchanged / absent version",
+ "C20-K": "missed at first; C20's source gained precertificate entries and entries with a non-fatal parser remark",
+ "C20-L": "missed at first; C20 gained quota streaks of 3-5 answers and the oracle run-failed-although-nothing-went-wrong",
 }
 rows = []
 for f in sorted(glob.glob("/verif/seeded/*/meta.json")):
